@@ -145,6 +145,9 @@ func (q *QWorld) tail(n int) []string {
 func (q *QWorld) violate(rule, sig, format string, args ...interface{}) bool {
 	q.failed = true
 	q.Res.Violate(q.prop(), rule, sig, fmt.Sprintf(format, args...), map[string]interface{}{"config": q.Cfg, "trace": q.tail(50)})
+	if q.Disk != nil && q.Disk.EnvLimitHit() {
+		q.Res.MarkEnvLimit()
+	}
 	return false
 }
 
@@ -156,6 +159,9 @@ func (q *QWorld) guard(what string, fn func()) (panicked bool) {
 			q.failed = true
 			q.Res.Violate(q.prop(), "panic", "panic:"+core.PanicSig(p, stack), fmt.Sprintf("panic in %s: %v", what, p),
 				map[string]interface{}{"config": q.Cfg, "trace": q.tail(50), "stack": core.TrimStack(stack)})
+			if q.Disk != nil && q.Disk.EnvLimitHit() {
+				q.Res.MarkEnvLimit()
+			}
 		}
 	}()
 	fn()
